@@ -152,6 +152,7 @@ class Log:
         self.external = []         # external_body functions (assumptions)
         self.sources = set()
         self.canaries = 0
+        self.new_functions = []
 
     def rule(self, r, msg):
         self.rules.append("%s %s" % (r, msg))
@@ -454,7 +455,7 @@ def _struct_emit(out, src, item, derives, log, keep_private=False):
         log.rule("R2", "struct %s: fields %s made pub" % (item.name, ", ".join(made)))
 
 
-def build(vc_path, repo_root, defines=None, canary=False):
+def build(vc_path, repo_root, defines=None, canary=False, known_drops=None):
     """returns (text, origins, log). defines: dict of NAME->str for `//@if NAME` ... `//@endif` sections."""
     defines = defines or {}
     lines = []          # (text, "file:line")
@@ -547,8 +548,14 @@ def build(vc_path, repo_root, defines=None, canary=False):
             if sub.kind == "fn":
                 spec = b["fns"].get(sub.name)
                 if spec is None:
-                    log.dropped.append("%s::%s" % (where, sub.name))
-                    continue
+                    key = ("%s::%s" % (where, sub.name)).replace(" ", "")
+                    if known_drops is None or key in known_drops:
+                        log.dropped.append("%s::%s" % (where, sub.name))
+                        continue
+                    # a function that did not exist in this block on the pinned tree: closed world - it is emitted verbatim,
+                    # so a trait-impl method is checked against the trait's contract (or the unit becomes undecided)
+                    log.new_functions.append(key)
+                    spec = FnSpec(sub.name, b["line"], keep=True)
                 seen.add(sub.name)
                 emit_fn(out, src, sub, spec, log, where, canary)
             elif sub.kind == "const" and sub.name in hoisted:
